@@ -123,8 +123,8 @@ func Run(c *ev.Ctx) int {
 	// concurrent lane: distinct keys uploaded at the same time through one process
 	rc := c.Rng("concurrent")
 	for i, cf := range cfgs {
-		rounds := c.Pick(1, 4)
-		if !c.Thorough() && i > 1 {
+		rounds := c.Pick(3, 4)
+		if !c.Thorough() && i > 0 {
 			break
 		}
 		for k := 0; k < rounds; k++ {
@@ -132,7 +132,8 @@ func Run(c *ev.Ctx) int {
 			wg.Add(1)
 			go func(cf cfgT, k int, seed int64) {
 				defer wg.Done()
-				runConcurrent(c, cf, k, seed)
+				// round 0 default scheduler, round 1 two Ps, round 2 race-instrumented gateway
+				runConcurrent(c, cf, k, seed, []string{"plain", "fewprocs", "race", "fewprocs"}[k%4])
 			}(cf, k, seed)
 		}
 	}
